@@ -101,7 +101,9 @@ def check(trace, S, cfg):
     M = np.array(cfg['M'])
     labels = cfg['labels']
     site_frac = np.array(alphabets.SITESETS[SITES_FOR[S]])
-    sites = concretise.make_sites(site_frac, labels, M)
+    # the site structure may carry its own cell; distances are those of the simulation cell
+    Ms = M if (L + A) % 2 == 0 else (M * 1.06) @ geom.rotation((12.0, 31.0, 47.0)).T
+    sites = concretise.make_sites(site_frac, labels, Ms)
     traj = vib_traj(A, L, M, cfg['dt'])
     try:
         tr = impl.make_transitions(trace, S, trajectory=traj, diff_trajectory=traj, sites=sites)
